@@ -425,7 +425,82 @@ def task_wide(t):
     return rep
 
 
+def task_reorder(t):
+    """Connectives and ite while DYNAMIC REORDERING fires inside the call: a request forced at
+    the k-th node creation, the reordering ending in a chosen order (the permutations of the
+    three variables rotate with the operands); a sparse manager (only the operands are held),
+    so that results really create nodes."""
+    import itertools
+    _, k, si, ns, focus = t
+    rep = run.Report()
+    rec = _Rec(rep)
+    names = names_for(3, env.SEED)
+    U = Universe(names)
+    model = _model(U)
+    perms = list(itertools.permutations(names))
+    seam = sweep.pick_order_seam()
+    if not seam.available():
+        rep.note('dd.bdd._request_reordering is absent: reordering cannot be forced')
+        return rep
+    fs = list(range(1 << U.N))
+    mine = sweep.shard(fs, ns)[si]
+    ops = [(g, syms[0]) for g, syms in BINARY.items()] + [('ite', 'ite')]
+    with seam:
+        for fu in mine:
+            if focus is not None and fu != focus[0]:
+                continue
+            for fv in fs[(fu * 7) % 5::5]:
+                if focus is not None and fv != focus[1]:
+                    continue
+                pi = (fu + 3 * fv) % len(perms)
+                g, sym = ops[(fu + fv) % len(ops)]
+                case = dict(kind='reorder', task=t[:-1] + ([fu, fv],), op=sym, u=U.fmt(fu),
+                            v=U.fmt(fv), position=k, order_after=list(perms[pi]))
+                try:
+                    m = S.new_bdd({v_: i for i, v_ in enumerate(perms[(pi + 1) % len(perms)])})
+                    b = sweep.Builder(m, U)
+                    u, v = b.verified(fu), b.verified(fv)
+                    m.incref(u)
+                    m.incref(v)
+                    m.configure(reordering=True)
+                    seam.target = {v_: i for i, v_ in enumerate(perms[pi])}
+                    seam.arm((k,))
+                    try:
+                        if g == 'ite':
+                            r = m.ite(u, v, -u)
+                            want = U.ite(fu, fv, U.full ^ fu)
+                        else:
+                            r = m.apply(sym, u, v)
+                            want = model[g](fu, fv)
+                    finally:
+                        seam.disarm()
+                    rep.add('evaluations')
+                    if seam.reorders:
+                        rep.add('reordered_inside')
+                        rep.add('nontrivial')
+                    den = O.Den(m, U)
+                    if den(r) != want:
+                        rec('reorder:' + sym, '%s gives another function when dynamic reordering '
+                            'fires inside the call' % sym, case)
+                    if den(u) != fu or den(v) != fv:
+                        rec('reorder-operand', 'an operand changed when reordering fired', case)
+                    ext = {}
+                    for x in (u, v):
+                        ext[abs(x)] = ext.get(abs(x), 0) + 1
+                    m.incref(r)
+                    ext[abs(r)] = ext.get(abs(r), 0) + 1
+                    O.check(m, ext, U)
+                except Violation as e:
+                    rec('reorder-broken:' + e.what, e.what, case, **e.detail)
+                except Exception as e:  # noqa
+                    rec('reorder-exception:' + type(e).__name__, 'raised %r' % (e,), case)
+    if si == 0 and focus is None:
+        rep.sample(dict(kind='connectives with reordering forced inside', position=k))
+    return rep
+
+
 TASKS = dict(pairs=task_pairs, ite=task_ite, sparse=task_sparse, autoref=task_autoref,
+             reorder=task_reorder,
              n4=task_n4, wide=task_wide, xwide=task_wide)
 
 
@@ -436,6 +511,7 @@ def _dispatch(t):
 def plan(tier):
     ts = [('wide', si, 16, None) for si in range(16)]
     ts += [('xwide', si, 16, None) for si in range(16)]
+    ts += [('reorder', k, si, 8, None) for k in (1, 2) for si in range(8)]
     n = 3
     no = 6
     if tier == 'quick':
@@ -557,7 +633,7 @@ def _rerun_task(case):
         t = ('autoref', case['n'], case['order'], 0, 1)
     elif kind == 'n4':
         t = ('n4', case['order'], 0, 1)
-    elif kind == 'wide':
+    elif kind in ('wide', 'reorder'):
         t = sweep._tuplify(case['task'])
     else:
         return None
